@@ -264,6 +264,16 @@ def dnp_templates():
             [1001, 221004, 103001, 12001, 4001, 10004, 11003, 2001]]
 
 
+def nested_assoc_templates():
+    """204YYY while another 204 is in force.  What that means for the data is pybufrkit's choice (FM94.AssocNestedAsSum, walked
+    only with NestedAssoc = TRUE); the flat data and the hierarchical view must agree about it, in particular after the INNER
+    204000, where one level of associated field is still in force."""
+    return [[204004, 31021, 204002, 31021, 12001, 204000, 12001, 1015, 204000, 10004],
+            [204003, 31021, 12001, 204005, 31021, 11003, 2001, 204000, 11003, 204000, 11003],
+            [204002, 31021, 102002, 204001, 31021, 12001, 204000, 10004, 204000, 1001],
+            [204004, 31021, 204002, 31021, 12001, 204000, 12001, 204000, 10004, 222000, 101003, 31031, 101000, 31001, 33007]]
+
+
 def sample(items, k, rnd):
     if k >= len(items):
         return list(items)
@@ -281,7 +291,7 @@ def catalogue(tier, seed=0):
     from . import gen
     n = 12 if tier == 'quick' else 60
     g = gen.generate(seed, n, n, n)
-    out = {'plain': p, 'struct': s, 'bitmap': b, 'open': open_templates(), 'dnp': dnp_templates(),
+    out = {'plain': p, 'struct': s, 'bitmap': b, 'open': open_templates(), 'dnp': dnp_templates(), 'assoc2': nested_assoc_templates(),
            'rnd_plain': g['plain'], 'rnd_struct': g['struct'], 'rnd_bitmap': g['bitmap']}
     # Table D sequences as one-descriptor templates (the sequences real messages are made of)
     for mv, seqs in table_d_sample(tier, seed, nquick=12).items():
